@@ -15,6 +15,7 @@ import (
 	"os"
 	"strings"
 	"sync"
+	"sync/atomic"
 	"time"
 
 	"github.com/enbility/ship-go/ship"
@@ -42,6 +43,9 @@ func runTimerTrial(id int, seed int64, durMs int) *timerTrial {
 	conn.VerifStopTimer()
 	r.take()
 	tr := &timerTrial{id: id}
+	if rnd.Intn(8) == 0 {
+		return runTimerRace(tr, conn, r, rnd, durMs)
+	}
 	nops := 1 + rnd.Intn(5)
 	armed := false
 	long := false // the timer armed last is a long one: it must not deliver within the observation window
@@ -114,6 +118,48 @@ func runTimerTrial(id int, seed int64, durMs int) *timerTrial {
 	_, running, _, _, _ := conn.VerifSnapshot()
 	if running {
 		// after everything settled no timer may be flagged as running
+		tr.ok = false
+		tr.states += " timer-flag-still-set"
+	}
+	return tr
+}
+
+// two goroutines arm a timer at the same moment (an approval racing an incoming message), the survivor is stopped,
+// a long timer is armed: whichever of the racing timers was replaced must never deliver
+func runTimerRace(tr *timerTrial, conn *ship.ShipConnection, r *rec, rnd *rand.Rand, durMs int) *timerTrial {
+	var wg sync.WaitGroup
+	var goFlag atomic.Bool
+	t0 := time.Now()
+	for _, d := range []int{durMs, durMs * 200} {
+		wg.Add(1)
+		go func(d int) {
+			defer wg.Done()
+			for !goFlag.Load() {
+			}
+			conn.VerifArmTimer(0, d)
+		}(d)
+	}
+	goFlag.Store(true)
+	wg.Wait()
+	conn.VerifStopTimer()
+	conn.VerifArmTimer(0, durMs*200)
+	if time.Since(t0) > time.Duration(durMs)*time.Millisecond/2 {
+		tr.inconclusive = true
+	}
+	tr.ops = []string{fmt.Sprintf("arm(%d)||arm(%d)", durMs, durMs*200), "stop", fmt.Sprintf("arm(%d)", durMs*200)}
+	time.Sleep(time.Duration(durMs)*time.Millisecond*2 + 30*time.Millisecond)
+	conn.VerifStopTimer()
+	tr.ops = append(tr.ops, "stop")
+	time.Sleep(time.Duration(durMs)*time.Millisecond + 10*time.Millisecond)
+	obs := r.take()
+	for _, o := range obs {
+		if strings.HasPrefix(o, "CB:") {
+			tr.delivered++
+		}
+	}
+	tr.states = strings.Join(obs, " ")
+	tr.ok = tr.delivered == 0
+	if _, running, _, _, _ := conn.VerifSnapshot(); running {
 		tr.ok = false
 		tr.states += " timer-flag-still-set"
 	}
